@@ -81,7 +81,9 @@ static void prop(Tape &t, Ctx &c) {
     if (p.s.open(sc) < 0 || p.c.open(cc) < 0) throw Discard{};
     if (early) { c.count("early-data-capable-session"); p.c.sel(); if (matrixSslGetMaxEarlyData(p.c.ssl) > 0 && t.coin()) { p.c.send(amsg(3, 40), 1); c.count("client-sent-early-data"); } }
     Endpoint &V = vclient ? p.c : p.s, &P = vclient ? p.s : p.c;
-    Mon mon; mon.V = &V; mon.desc = desc;
+    Mon mon; mon.V = &V; mon.desc = desc; int victim_pad = 0;
+    // TLS 1.3 record padding on the victim (matrixSslSetTls13BlockPadding): its own alerts are padded too, up to several kB
+    if (ver == TLS13 && r2 % 3 == 0) { static const int PB[] = { 64, 512, 1024, 4096, 16000 }; int pb = PB[(r2 / 3) % 5]; V.sel(); if (matrixSslSetTls13BlockPadding(V.ssl, pb) >= 0) { victim_pad = pb; c.count(fmt("victim-tls13-pad-block:%d", pb)); mon.desc += fmt(" victim-pad-block=%d", pb); } }
     const size_t HDR = dt ? 13 : 5;
 
     std::vector<Bytes> delivered_units; // legit units V has consumed
@@ -103,7 +105,8 @@ static void prop(Tape &t, Ctx &c) {
             mon.out_bytes_after += w.size();
             if (c.verbose && !w.empty()) fprintf(stderr, "  out-after-death: %s\n", hex(w.data(), w.size(), 48).c_str());
             if (!dt) for (auto &r : parse_records(w, false)) {
-                bool ok = r.type == 21 || (ver == TLS13 && r.type == 23 && r.len <= 64);
+                // TLS 1.3 alerts are protected: outer type 23, 2 + 1 bytes + record padding (up to the victim's pad block) + 16-byte tag
+                bool ok = r.type == 21 || (ver == TLS13 && r.type == 23 && r.len <= 64 + (size_t) victim_pad);
                 VF_CHECK(ok, "non-alert-output-after-death", "record type %u len %zu emitted after death (%s); %s", r.type, r.len, mon.why.c_str(), desc.c_str());
             }
             VF_CHECK(mon.out_bytes_after <= 200, "too-much-output-after-death", "%zu bytes emitted after death (%s); %s", mon.out_bytes_after, mon.why.c_str(), desc.c_str());
